@@ -125,3 +125,35 @@ Theorem C19_asked_is_accounted : forall ttl chk W st ms now takes,
     In (m_id m) (map qid (queue st2)) \/ In (m_id m) (inflight st2).
 Proof. exact asked_is_accounted. Qed.
 Print Assumptions C19_asked_is_accounted.
+
+(* ===================================================================================================================
+   Lock level (Model/Locks.v + Proofs/LocksP.v; see Props/C18.v for the semantics).  msgQueue {msgs, msgIDs} and
+   inMemTokenDataCache {inMemTokenData, expiresAt} are each one group under one RWMutex; their methods' action
+   programs are extracted from the Go sources on every run and checked in coq/GenEquiv/C19_locks_gen.v
+   (C19_msg_queue_well_locked, C19_token_cache_well_locked, C19_queue_all_interleavings_gen,
+   C19_cache_all_interleavings_gen): the id set and the queue change together or not at all, cache value and expiry
+   likewise, no access without the lock, and no channel operation, WaitGroup wait or goroutine start while the
+   mutex is held.
+   =================================================================================================================== *)
+Require Import Verif.Model.Locks Verif.Proofs.LocksP.
+
+(* the general theorem instantiated for an extracted object: any number of threads, each running one of its methods
+   (the methods listed in [ex] are checked for the lock discipline only), in every interleaving *)
+Theorem C19_locks_all_interleavings : forall ex o lps s,
+  well_locked_except ex o = true ->
+  (forall lp, In lp lps -> In lp (threads_of ex o)) ->
+  reachable (init lps) s -> locks_safe (o_layout o) s.
+Proof. exact locks_object. Qed.
+Print Assumptions C19_locks_all_interleavings.
+
+(* msgQueue.enqueue as it is: membership is asked in a read section (containsMsg), the append happens in a later
+   write section.  Lock discipline fine; not a consistent reader: with a second producer in between, the thread
+   decides on a stale id set and appends to a newer queue (the message can be queued twice).  Harmless only as long
+   as one goroutine at a time calls Observe (the OCR3 plugin does), which is why C19_waiting_not_requeued above is
+   stated for the sequential event model. *)
+Theorem C19_enqueue_check_then_act_refuted :
+  locks_ok lay2 q_enq = true /\ well_locked lay2 q_enq = false /\
+  exists s t, reachable (init [(true, desugar lay2 q_enq); (true, desugar lay2 q_enq)]) s /\
+              In t (st_ths s) /\ ~ obs_consistent lay2 (t_obs t).
+Proof. exact check_then_act_refuted. Qed.
+Print Assumptions C19_enqueue_check_then_act_refuted.
